@@ -7,5 +7,11 @@ META = {"explanation": "bounded functional: one concrete (small) shape per group
         "assumptions": ["orchestration for all shapes and ranks (layer S): shapes, window containment, index ranges of the bit accessors and release of every temporary only -- the algebra is decided on the concrete-rank instances", "_mzd_pluq replaced by the library's own _mzd_pluq_naive (harness-level -D substitution when compiling solve.c)"]}
 
 
+def _carriers(tier):
+    # the factorisation behind the solver: compression step of the block-recursive PLE under its stage contract
+    from checks import C13, carriers
+    return carriers.pick(C13.compress_groups(tier), ".131x130.", ".80x128.", ".7x70.", prop="C06")
+
+
 def groups(tier, seed):
-    return with_canaries(alg.c06(tier)) + with_canaries([g for g in layer_s.solve_groups(["C06", "C07", "C09", "C11"]) if g.function != "mzd_kernel_left_pluq"])
+    return with_canaries(alg.c06(tier)) + with_canaries([g for g in layer_s.solve_groups(["C06", "C07", "C09", "C11"]) if g.function != "mzd_kernel_left_pluq"]) + _carriers(tier)
